@@ -10,6 +10,9 @@ with exactly the k-th call failing:
     fail    OSError before the call has any effect
     torn    half of the bytes are written / copied, then OSError
     intr    the call takes full effect, then KeyboardInterrupt
+    assert  (file writes only) half of the bytes are handed to the still
+            buffered file object, then AssertionError - the emitter failure
+            the tools' restore-the-original path exists for
 """
 import builtins
 import os
@@ -17,7 +20,7 @@ import shutil
 import tempfile as real_tempfile
 from types import SimpleNamespace
 
-KINDS = ("fail", "torn", "intr")
+KINDS = ("fail", "torn", "intr", "assert")
 
 
 class Injected(OSError):
@@ -58,6 +61,9 @@ class FaultyFile:
             self._f.write(data[:len(data) // 2])
             self._f.flush()
             raise Injected("injected: torn write")
+        if kind == "assert":
+            self._f.write(data[:len(data) // 2])      # stays buffered
+            raise AssertionError("injected: emitter assertion")
         res = self._f.write(data)
         if kind == "intr":
             self._f.flush()
@@ -67,7 +73,7 @@ class FaultyFile:
     def close(self):
         kind = self._plan.point("close:" + self._name)
         self._f.close()
-        if kind in ("fail", "torn"):
+        if kind in ("fail", "torn", "assert"):
             raise Injected("injected: close failed")
         if kind == "intr":
             raise KeyboardInterrupt()
